@@ -4,7 +4,7 @@
    a sample of every run (the in-kernel sample), so the extraction itself is checked. *)
 From Coq Require Import List Ascii String Bool Arith NArith ZArith.
 Require Import Show.
-Require V1 V5 V6 V3 V11 A1 D3 M6 M6b GS R2 R2u AR AR2 AR3 ARu CL TS3 CX SchemaDefs Schema_gen H12 H13 S11 D16 DEB U20.
+Require V1 V5 V6 V3 V11 A1 D3 M6 M6b GS R2 R2u AR AR2 AR3 ARu CL TS3 CX SchemaDefs Schema_gen H12 H13 S11 D16 DEB U20 U20d.
 Import ListNotations.
 Open Scope string_scope.
 Open Scope list_scope.
@@ -503,6 +503,7 @@ Definition run_debpkg (op : string) (a : list str) : option str :=
 (* ---- upload Copy / Move / Remove: C20 (the OS is the fault oracle: the driver says which primitive call fails) ---- *)
 Definition SRC : str := lit "S".
 Definition DST : str := lit "D".
+Definition DST2 : str := lit "D2".
 Fixpoint fs_of_args (a : list str) : U20.fsys :=
   match a with d :: n :: c :: r => ((d, n), c) :: fs_of_args r | _ => [] end.
 Definition show_event (ev : U20.event) : str :=
@@ -525,11 +526,22 @@ Definition run_upload (op : string) (a : list str) : option str :=
     let fault := fun t : nat => if D3.seq (g 2) (lit "-") then false else Nat.eqb t (arg_nat (g 2)) in
     let h := {| U20.h_dir := SRC; U20.h_file := g 1; U20.h_listed := listed |} in
     let x0 := {| U20.fs := fs0; U20.log := []; U20.tick := 0 |} in
-    let '(x, ok) :=
-      if D3.seq (g 0) (lit "copy") then U20.do_copy fault h DST x0
-      else if D3.seq (g 0) (lit "move") then U20.do_move fault h DST x0
-      else U20.do_remove fault h x0 in
-    Some (unwords [if ok then lit "ok" else lit "err"; show_fs (U20.fs x); show_list show_event (U20.log x)])
+    let run1 (o : str) (h : U20.handle) (dest : str) (x : U20.st) :=
+      if D3.seq o (lit "copy") then U20.do_copy fault h dest x
+      else if D3.seq o (lit "move") then U20.do_move fault h dest x
+      else U20.do_remove fault h x in
+    match GS.split "+"%char (g 0) with
+    | [o1; o2] =>
+        (* a history: the second operation goes through the same handle, which follows a successful first one *)
+        let '(x1, ok1) := run1 o1 h DST x0 in
+        if ok1 then
+          let '(x2, ok2) := run1 o2 (U20d.after h DST true) DST2 x1 in
+          Some (unwords [if ok2 then lit "ok+ok" else lit "ok+err"; show_fs (U20.fs x2); show_list show_event (U20.log x2)])
+        else Some (unwords [lit "err"; show_fs (U20.fs x1); show_list show_event (U20.log x1)])
+    | _ =>
+        let '(x, ok) := run1 (g 0) h DST x0 in
+        Some (unwords [if ok then lit "ok" else lit "err"; show_fs (U20.fs x); show_list show_event (U20.log x)])
+    end
   else None.
 
 Definition run (op : string) (hexargs : list str) : str :=
